@@ -209,9 +209,30 @@ func (w *w6) kindFacts(fd *ast.FuncDecl, parents map[ast.Node]ast.Node, at ast.N
 		if !ok || (be.Op != token.EQL && be.Op != token.NEQ) {
 			return "", 0, false
 		}
-		lhs := types.ExprString(ast.Unparen(be.X))
-		if a, ok := aliases[lhs]; ok {
-			lhs = a
+		// normalise: a local that renames (part of) the descriptor is replaced by its definition, and the reflect.Type
+		// view of a reflect2 type (X.Type1()) is the same type
+		norm := func(e ast.Expr) string {
+			s := types.ExprString(ast.Unparen(e))
+			if a, ok := aliases[s]; ok {
+				s = a
+			}
+			if i := strings.IndexAny(s, ".("); i > 0 {
+				if a, ok := aliases[s[:i]]; ok && !strings.ContainsAny(a, " +-*/") {
+					s = a + s[i:]
+				}
+			}
+			return strings.ReplaceAll(s, ".Type1()", "")
+		}
+		lhs := norm(be.X)
+		// <desc> == interfaceType: the type IS interface{} (kind Interface, and no methods)
+		if lhs == desc || norm(be.Y) == desc {
+			other := be.Y
+			if lhs != desc {
+				other = be.X
+			}
+			if o := identObj(info, other); o != nil && refName(o.Name()) == "interfaceType" {
+				return "Interface", be.Op, true
+			}
 		}
 		if lhs != desc+".Kind()" {
 			return "", 0, false
